@@ -165,13 +165,129 @@ def replace_chain(t):
     return t, pairs
 
 
+def _unroll_escape_loops(fn, p):
+    """`for a, b in TABLE.items(): word = word.replace(a, b)` over a literal table (a dict display, possibly a module-level
+    constant the front end has already written in place) is the chain of replacements in the order of the table; a `return`
+    from inside such a loop applies only the first replacement that finds something and is reported."""
+    import ast
+    import copy
+    mod = getattr(fn, '_pymodule', None)
+    x_ = fn
+    while mod is None and getattr(x_, '_parent', None) is not None:
+        x_ = x_._parent
+        mod = getattr(x_, '_pymodule', None)
+    par = getattr(fn, '_parent', None)
+    fn._parent = None               # (the copy below must not drag the whole module along)
+    try:
+        out = copy.deepcopy(fn)
+    finally:
+        fn._parent = par
+    changed = False
+    for blk in [n_ for n_ in ast.walk(out) if isinstance(getattr(n_, 'body', None), list)]:
+        for i, st_ in enumerate(list(blk.body)):
+            if not (isinstance(st_, ast.For) and isinstance(st_.target, ast.Tuple) and len(st_.target.elts) == 2 and all(isinstance(e, ast.Name) for e in st_.target.elts)
+                    and isinstance(st_.iter, ast.Call) and isinstance(st_.iter.func, ast.Attribute) and st_.iter.func.attr == 'items' and not st_.orelse):
+                continue
+            tab = st_.iter.func.value
+            if isinstance(tab, ast.Name) and mod is not None:
+                tab = mod.literal(tab) if hasattr(mod, 'literal') else tab
+            if not (isinstance(tab, ast.Dict) and all(isinstance(k, ast.Constant) and isinstance(v, ast.Constant) for k, v in zip(tab.keys, tab.values))):
+                continue
+            a_, b_ = st_.target.elts[0].id, st_.target.elts[1].id
+            body = st_.body
+            if len(body) == 1 and isinstance(body[0], ast.If) and not body[0].orelse and isinstance(body[0].test, ast.Compare) and len(body[0].test.ops) == 1 \
+                    and isinstance(body[0].test.ops[0], ast.In) and isinstance(body[0].test.left, ast.Name) and body[0].test.left.id == a_:
+                body = body[0].body
+            is_rep = lambda v: isinstance(v, ast.Call) and isinstance(v.func, ast.Attribute) and v.func.attr == 'replace' and isinstance(v.func.value, ast.Name) \
+                and v.func.value.id == p and len(v.args) == 2 and all(isinstance(x, ast.Name) for x in v.args) and [x.id for x in v.args] == [a_, b_]
+            if len(body) == 1 and isinstance(body[0], ast.Return) and is_rep(body[0].value):
+                from .core import StructuralViolation
+                raise StructuralViolation('R-codec', '%s:%s %s' % (getattr(mod, 'rel', 'depccg/utils.py'), body[0].lineno, fn.name), '%s:first-replacement-only' % fn.name,
+                                          '%s returns from inside the loop over its table of replacements (%s): only the first kind of character that occurs is rewritten, '
+                                          'so a word with two kinds (`<unk>`) is written half escaped and is not the word read back' % (fn.name, [k.value for k in tab.keys]))
+            if len(body) == 1 and isinstance(body[0], ast.Assign) and len(body[0].targets) == 1 and isinstance(body[0].targets[0], ast.Name) \
+                    and body[0].targets[0].id == p and is_rep(body[0].value):
+                new = []
+                for k, v in zip(tab.keys, tab.values):
+                    call = ast.Call(func=ast.Attribute(value=ast.Name(id=p, ctx=ast.Load()), attr='replace', ctx=ast.Load()),
+                                    args=[ast.Constant(value=k.value), ast.Constant(value=v.value)], keywords=[])
+                    new.append(ast.copy_location(ast.Assign(targets=[ast.Name(id=p, ctx=ast.Store())], value=call), st_))
+                j = blk.body.index(st_)
+                blk.body[j:j + 1] = new
+                changed = True
+    if changed:
+        ast.fix_missing_locations(out)
+        from .core import attach_parents
+        attach_parents(out)
+        out._parent = getattr(fn, '_parent', None)
+    return out if changed else fn
+
+
+def _literal_table(fn, t):
+    """the {key: value} of a table term: a dict display of constants, a module-level name bound to one, or to the inverse of one"""
+    import ast
+    if t[0] == 'dict' and all(k is not None and k[0] == 'const' and v[0] == 'const' for k, v in t[1]):
+        return {k[1]: v[1] for k, v in t[1]}
+    if t[0] != 'name':
+        return None
+    mod = None
+    x_ = fn
+    while mod is None and x_ is not None:
+        mod = getattr(x_, '_pymodule', None)
+        x_ = getattr(x_, '_parent', None)
+    if mod is None:
+        return None
+    v = mod.assign(t[1], required=False)
+
+    def display(d):
+        if isinstance(d, ast.Name):
+            d = mod.assign(d.id, required=False)
+        if isinstance(d, ast.Dict) and all(isinstance(k, ast.Constant) and isinstance(w, ast.Constant) for k, w in zip(d.keys, d.values)):
+            return [(k.value, w.value) for k, w in zip(d.keys, d.values)]
+        return None
+    if isinstance(v, (ast.Dict, ast.Name)):
+        d = display(v)
+        return dict(d) if d is not None else None
+    if isinstance(v, ast.DictComp) and len(v.generators) == 1 and not v.generators[0].ifs:
+        g = v.generators[0]
+        if isinstance(g.target, ast.Tuple) and len(g.target.elts) == 2 and all(isinstance(e, ast.Name) for e in g.target.elts) \
+                and isinstance(g.iter, ast.Call) and isinstance(g.iter.func, ast.Attribute) and g.iter.func.attr == 'items' and not g.iter.args \
+                and isinstance(v.key, ast.Name) and isinstance(v.value, ast.Name):
+            a_, b_ = g.target.elts[0].id, g.target.elts[1].id
+            d = display(g.iter.func.value)
+            if d is not None and (v.key.id, v.value.id) == (b_, a_) and len({w for _k, w in d}) == len(d):
+                return {w: k for k, w in d}
+            if d is not None and (v.key.id, v.value.id) == (a_, b_):
+                return dict(d)
+    return None
+
+
 def whole_word_map(fn):
     """if word == K: return V chains + trailing replace chain -> (whole {K: V}, replaces [(a, b)])"""
     p = fn.args.args[0].arg
     whole, repl = {}, []
+    fn = _unroll_escape_loops(fn, p)
     for st, o in SymExec(fn).run():
         if o != 'return':
             continue
+        # a dictionary of whole words:  if word in TABLE: return TABLE[word]   (the walker shows the lookup as a chain of
+        # conditional expressions over the keys of the literal table)
+        dtab = [c[3] for c, pol, _ in st.conds if pol and c[0] == 'cmp' and c[1] == 'in' and c[2] == N(p) and c[3][0] == 'dict']
+        if dtab and st.ret is not None and st.ret[0] in ('ifexp', 'const'):
+            items = dtab[0][1]
+            if all(k is not None and k[0] == 'const' and v[0] == 'const' for k, v in items):
+                def lookup(t, key):
+                    while t[0] == 'ifexp':
+                        c_ = t[1]
+                        if c_[0] == 'cmp' and c_[1] == '==' and c_[2] == N(p) and c_[3][0] == 'const':
+                            t = t[2] if c_[3][1] == key else t[3]
+                        else:
+                            return None
+                    return t[1] if t[0] == 'const' else None
+                got = {k[1]: lookup(st.ret, k[1]) for k, _v in items}
+                if all(got[k[1]] == v[1] for k, v in items):
+                    whole.update(got)
+                    continue
         eqs = [c[3][1] for c, pol, _ in st.conds if pol and c[0] == 'cmp' and c[1] == '==' and c[2] == N(p) and c[3][0] == 'const']
         # table-driven: `if word in KEYS: return VALUES[KEYS.index(word)]`
         tabs = [c[3] for c, pol, _ in st.conds if pol and c[0] == 'cmp' and c[1] == 'in' and c[2] == N(p)]
@@ -191,6 +307,14 @@ def whole_word_map(fn):
                     for k, v in zip(keys[1], seq):
                         whole[k[1]] = v
                     continue
+        # `return TABLE.get(word, word)`: the words of a literal table (or of the inverse of one, `{b: a for a, b in T.items()}`)
+        # are replaced, every other word is returned as it is
+        r_ = st.ret
+        if not eqs and r_ is not None and r_[0] == 'call' and r_[1][0] == 'attr' and r_[1][2] == 'get' and r_[2] == (N(p), N(p)) and not r_[3]:
+            items = _literal_table(fn, r_[1][1])
+            if items is not None:
+                whole.update(items)
+                continue
         if eqs:
             if st.ret[0] != 'const':
                 raise AnalysisError('%s: non-constant result for %r' % (fn.name, eqs[0]))
